@@ -283,18 +283,26 @@ impl<C: ContentAddrStore> UnsealedState<C> {
     /// **NOTE**: Calling this means that no more transactions can be applied to this state at the current `BlockHeight`.
     pub fn seal(mut self, action: Option<ProposerAction>) -> SealedState<C> {
         // first apply melmint
+        #[cfg(melstf_verif)]
+        crate::verif::phase("seal-begin", &self);
         self = crate::melmint::preseal_melmint(self);
         assert!(self.pools.val_iter().count() >= 2);
+        #[cfg(melstf_verif)]
+        crate::verif::phase("after-pegging", &self);
 
         // then apply tip 909
         if self.tip_909() {
             self.apply_tip_909();
         }
+        #[cfg(melstf_verif)]
+        crate::verif::phase("after-tip909", &self);
 
         // apply the proposer action
         if let Some(action) = action {
             self.apply_proposer_action(action, self.tip_901());
         }
+        #[cfg(melstf_verif)]
+        crate::verif::phase("after-proposer", &self);
         // create the finalized state
         SealedState(self, action)
     }
